@@ -1,9 +1,9 @@
-\* C18 procedure machine: sequential, restores parameters and supplied initial values: every property holds
+\* C18 procedure machine: closed loop (state-dependent steady state), sequential: every property holds
 CONSTANTS
     Mode = "seq"
     RestorePars = TRUE
     RestoreY0 = TRUE
-    Cyclic = FALSE
+    Cyclic = TRUE
     EarlyRestoreY0 = FALSE
 INIT Init
 NEXT Next
